@@ -153,13 +153,14 @@ func c13() {
 		}
 	})
 	c13HasherFaults(r, scratch)
+	c13RootOnly(r, scratch)
 	r.Assume("every created, deleted or modified path of a step is reported (lstat listing before/after each edit united with the edit script's own paths), plus its parent directory; core.Scan closes the set over ancestors itself")
 	r.Assume("every content change alters size, mtime (>= 1 s bump), inode or type by construction of the edit script")
 	r.Assume("the cold reference scan is tied to the filesystem by C12")
 	if r.Counter("steps_reusing_baseline_directories") == 0 {
 		r.Inconclusive("no accelerated scan re-used a baseline directory")
 	}
-	r.Finish("random disk trees followed by histories of edit steps (create, mkdir, in-place edit, chmod, delete, rename, replace by new inode, single-attribute content changes (only inode / only mtime / only size differs), file<->directory, in-place edit two or more levels below a directory that is reported too, directory removed and re-created with the same layout and sizes but new content, a change inside a directory reported together with a changed sibling named like the directory plus ' ', '+', '-' or '.', changes directly beside Docker-syntax phantom directories, symlink create/retarget, empty-directory replacement, add child; 1..30 edits per step, also inside ignored directories) under both ignore syntaxes; after every step core.Scan(baseline = previous accelerated snapshot, recheck = changed paths [+ random extra paths], previous digest and ignore caches) must succeed and be proto.Equal to a cold scan; accelerated outputs feed the next step; plus histories with ONE hasher object shared by all scans in which a scan is cancelled while hashing a 40 MiB file or a file grows while it is hashed, after which the accelerated scan with that hasher must equal a cold scan with a fresh one; non-trivial = step with at least one effective edit; distinct = (syntax, sorted edit operations of the step, baseline directories re-used or not, extras)", 60)
+	r.Finish("random disk trees followed by histories of edit steps (create, mkdir, in-place edit, chmod, delete, rename, replace by new inode, single-attribute content changes (only inode / only mtime / only size differs), file<->directory, in-place edit two or more levels below a directory that is reported too, directory removed and re-created with the same layout and sizes but new content, a change inside a directory reported together with a changed sibling named like the directory plus ' ', '+', '-' or '.', changes directly beside Docker-syntax phantom directories, symlink create/retarget, empty-directory replacement, add child; 1..30 edits per step, also inside ignored directories) under both ignore syntaxes; after every step core.Scan(baseline = previous accelerated snapshot, recheck = changed paths [+ random extra paths], previous digest and ignore caches) must succeed and be proto.Equal to a cold scan; accelerated outputs feed the next step; plus single-file roots (edit, same-size edit, chmod, replacement by rename) and directory roots (root-level creation/deletion) rescanned with the recheck set {\"\"}; plus histories with ONE hasher object shared by all scans in which a scan is cancelled while hashing a 40 MiB file or a file grows while it is hashed, after which the accelerated scan with that hasher must equal a cold scan with a fresh one; non-trivial = step with at least one effective edit; distinct = (syntax, sorted edit operations of the step, baseline directories re-used or not, extras)", 60)
 }
 
 func c13History(r *vk.Run, rng *rand.Rand, h, steps int, root string) {
